@@ -175,7 +175,7 @@ fn meta_kv() -> BoxedStrategy<Vec<(String, Val)>> {
 
 pub fn strategy() -> BoxedStrategy<C15Case> {
     let stmt = (
-        proptest::sample::select(vec!["out1", "out2", "o.x", "trig.echo", "h.out"]).prop_map(|s| s.to_string()),
+        proptest::sample::select(vec!["out1", "out2", "o.x", "trig.echo", "h.out", "out1", "out2", "xs.context"]).prop_map(|s| s.to_string()),
         val_pipeable(),
         proptest::option::weighted(0.5, meta_kv()),
         prop_oneof![
@@ -399,6 +399,12 @@ fn run_in(case: &C15Case, nu: &mut Nu) -> Result<CaseInfo, Fail> {
         // successful call: explicit appends in call order, then the return frame
         let mut want: Vec<(String, Option<Vec<u8>>, Option<serde_json::Value>, Option<WTtl>, serde_json::Map<String, serde_json::Value>)> = vec![];
         for a in &case.appends {
+            // an `xs.context` frame is only accepted in the zero context: from a handler of another
+            // context the store refuses it (its output is forced into its own context) - that one
+            // frame is missing, the rest of the invocation's output is not
+            if a.topic == "xs.context" && hctx != ZERO {
+                continue;
+            }
             let mut meta = serde_json::Map::new();
             if let Some(m) = &a.meta {
                 for (k, v) in m {
@@ -406,7 +412,9 @@ fn run_in(case: &C15Case, nu: &mut Nu) -> Result<CaseInfo, Fail> {
                 }
             }
             let bytes = if a.echo { trigger_bytes[ti].clone() } else { a.input.piped_bytes() };
-            want.push((a.topic.clone(), bytes, None, a.ttl.clone(), meta));
+            // (a registration is kept forever whatever ttl the script asked for)
+            let ttl = if a.topic == "xs.context" { Some(WTtl::Forever) } else { a.ttl.clone() };
+            want.push((a.topic.clone(), bytes, None, ttl, meta));
         }
         if case.ret_frame {
             // the frame as the closure was handed it, rendered as a record
@@ -504,6 +512,7 @@ fn run_in(case: &C15Case, nu: &mut Nu) -> Result<CaseInfo, Fail> {
     let mut labels = vec![];
     for (on, name) in [
         (will_fail, "closure-fails"),
+        (!will_fail && hctx != ZERO && case.appends.iter().any(|a| a.topic == "xs.context"), "one-output-frame-refused-by-the-store"),
         (case.ret_frame && !will_fail, "returns-the-frame-it-was-given"),
         (will_fail && case.fail_in_builtin, "closure-fails-inside-builtin-command"),
         (fail_after_buffered, "failure-after-buffered-append"),
